@@ -321,6 +321,9 @@ def run_group(spec, storage, combos, variant=None):  # noqa: C901, PLR0912
                 results = pipeline.map(dict(inputs), run_folder=folder, internal_shapes=ish, parallel=False, storage=storage)
         except Exception as e:  # noqa: BLE001
             fail = (findings.exc_sig(e, phase="map", **pred), f"map failed on {desc}: {type(e).__name__}: {str(e)[:120]}")
+        # ONE inputs dict for all requests of this run (as a caller would hold it): a builder that writes into it changes what
+        # the next request sees
+        shared_inputs = dict(inputs)
         for li, names in combos:
             case = {"spec": spec, "storage": storage, "li": li, "outs": names, **({"variant": variant} if variant else {})}
             info = {"coords": 0, "zips": 0, "outcome": None, "skipped_subdict": False, "stats": collections.Counter()}
@@ -336,12 +339,16 @@ def run_group(spec, storage, combos, variant=None):  # noqa: C901, PLR0912
                     with _quiet():
                         if entry == "from_results":
                             sub = results if names is None else collections.OrderedDict((k, v) for k, v in results.items() if k in req)
-                            built[entry] = xarray_dataset_from_results(dict(inputs), sub, pipeline, load_intermediate=li)
+                            built[entry] = xarray_dataset_from_results(shared_inputs, sub, pipeline, load_intermediate=li)
                         else:
                             built[entry] = load_xarray_dataset(*(names or ()), run_folder=folder, load_intermediate=li)
                 except Exception as e:  # noqa: BLE001
                     errors[entry] = e
             viol = []
+            if set(shared_inputs) != set(inputs):
+                viol.append(({"kind": "inputs-dict-changed", "li": li}, f"xarray_dataset_from_results(load_intermediate={li}, names={names}) changed the caller's "
+                             f"inputs dict: keys {sorted(shared_inputs)} (were {sorted(inputs)}) on {desc}"))
+                shared_inputs = dict(inputs)
             e1 = errors.get("from_results")
             if (e1 is not None and names is not None and li and isinstance(e1, KeyError) and findings.exc_site(e1) == "map/xarray.py:_data_loader"
                     and e1.args and e1.args[0] in every and e1.args[0] not in req):
